@@ -1347,7 +1347,7 @@ package go9p
 //@   at call((*SrvReq).RespondRattach) requires [aux] ufsaux(req.Fid)
 
 //@ func (*Ufs).Walk(ufs, req)
-//@   property C18 C16 C06
+//@   property C18 C16 C06 C19
 //@   requires ufs != nil && ufsreq(req) && req.Newfid != nil
 //@   requires req.Newfid.Aux != nil ==> ufsaux(req.Newfid)
 //@   at call(path/filepath.Clean) ensures isroot(ret)
@@ -1359,6 +1359,9 @@ package go9p
 //@   at call((*SrvReq).RespondRwalk) requires [partial] i < len(old(req.Tc.Wname)) ==> fid.path == old(upath(req)) && i > 0
 //@   at call((*SrvReq).RespondRwalk) requires [complete] i == len(old(req.Tc.Wname)) ==> nfid.path == path && confined(nfid.path)
 //@   at call((*SrvReq).RespondRwalk) requires [srcfid] nfid != fid ==> fid.path == old(upath(req))
+// walks from one shared fid run concurrently (C19): a walk to a different fid reads the source fid only
+//@   at call((*SrvReq).RespondRwalk) requires [C19 sharedsrc] nfid != fid ==> fid.st == old(ival(req.Fid.Aux, "*ufsFid").st) && fid.file == old(ival(req.Fid.Aux, "*ufsFid").file)
+//@   at call((*SrvReq).RespondError) requires [C19 sharedsrc] old(req.Newfid) != old(req.Fid) ==> fid.st == old(ival(req.Fid.Aux, "*ufsFid").st) && fid.file == old(ival(req.Fid.Aux, "*ufsFid").file)
 //@   loop 1
 //@     invariant 0 <= i && i <= len(tc.Wname) && len(wqids) == len(tc.Wname) && fresh(wqids) && confined(path) && reqwf(req) && nolocks()
 //@     invariant fid != nil && nfid != nil && fid.path == old(upath(req)) && tc == old(req.Tc) && tc.Wname == old(req.Tc.Wname)
@@ -1385,6 +1388,10 @@ package go9p
 //@   requires d != nil && upool != nil
 //@   at call(strings.LastIndex) ensures -1 <= ret && ret < len(arg0)
 //@   at call(os/user.LookupId) ensures ret1 == nil ==> ret0 != nil
+//@   ghost nosys bool = false
+//@   at call(os.FileInfo.Sys) after nosys := ret == nil
+//@   ensures  [C15 C16 total] st == nil ==> nosys
+//@   ensures  [C15 C16 noerr] st != nil ==> err == nil
 //@   ensures  st != nil ==> strsok(st) && statsize(st, dotu) <= 65535
 //@   ensures  errwf(err)
 //@   assigns  fresh
@@ -1418,6 +1425,7 @@ package go9p
 //@ pure snapok(f) = (forall k int :: 0 <= k && k < len(f.direntends) ==> 0 < f.direntends[k] && f.direntends[k] <= len(f.dirents))
 //@      && (forall k int :: 0 < k && k < len(f.direntends) ==> f.direntends[k-1] + 2 <= f.direntends[k])
 //@      && (len(f.direntends) > 0 ==> f.direntends[0] >= 2)
+//@      && (forall a int, b int :: 0 <= a && a < b && b < len(f.direntends) ==> f.direntends[a] < f.direntends[b])
 //@      && (len(f.direntends) > 0 ==> f.direntends[len(f.direntends)-1] == len(f.dirents))
 //@      && (len(f.direntends) == 0 ==> len(f.dirents) == 0)
 // every entry of the snapshot is one whole stat record: its size field spans exactly to its end
@@ -1459,7 +1467,7 @@ package go9p
 //@   at call(SetRreadCount)#2 requires [C15 window] isdir && !deref(Akaros) && entrybound(fid, old(req.Tc.Offset)) ==> entrybound(fid, old(req.Tc.Offset) + arg1)
 //@   at call(SetRreadCount)#2 requires [C15 progress] isdir && !deref(Akaros) && arg1 == 0 ==> old(req.Tc.Offset) >= len(fid.dirents)
 //@   at call(SetRreadCount)#2 requires [C15 data] isdir ==> old(req.Tc.Offset) + arg1 <= len(fid.dirents) && (forall k int :: 0 <= k && k < arg1 ==> rc.Data[k] == fid.dirents[old(req.Tc.Offset) + k])
-//@   at call(SetRreadCount)#2 requires [C15 snapshot] isdir ==> snapok(fid) && snaprecs(fid)
+//@   at call((*SrvReq).RespondError)#5 requires [C15 toosmall] isdir && entrybound(fid, old(req.Tc.Offset)) ==> (forall j int :: 0 <= j && j < len(fid.direntends) && old(req.Tc.Offset) < fid.direntends[j] ==> old(req.Tc.Offset) + old(req.Tc.Count) < fid.direntends[j])
 //@   loop 1
 //@     invariant 0 <= i && i <= len(fid.dirs) && reqwf(req) && nolocks() && fid != nil && rc == req.Rc && rc != nil && tc == req.Tc
 //@     invariant forall k int :: 0 <= k && k < len(fid.dirs) ==> fid.dirs[k] != nil
